@@ -8,8 +8,8 @@ package main
 // The fragment is first lowered to a small IR (so that switch statements become if-chains), then printed in
 // continuation style: every statement list becomes one term of type `res R` (function level), `res (ctl S R)` (loop
 // body, S the tuple of outer variables the body assigns) or `res S` (a branch that falls through to a join).
-// Assignment is modelled by rebinding the name; a function that declares one name twice is refused, so rebinding
-// cannot confuse two variables.
+// Assignment is modelled by rebinding the variable's identifier; every Go variable object gets an identifier of its
+// own (a second `alg` in another branch becomes alg_2), so rebinding cannot confuse two variables.
 
 import (
 	"fmt"
@@ -71,6 +71,7 @@ type ftr struct {
 	declared map[string]int
 	byteVars map[string]string // coq name -> definition
 	names    map[types.Object]string
+	hdr      *hdrCtx // set while translating a header-logic slice (T12, slices.go)
 	err      error
 }
 
@@ -146,6 +147,9 @@ func (f *ftr) typeOf(e ast.Expr) types.Type { return f.pi.p.TypesInfo.TypeOf(e) 
 
 func (f *ftr) expr(e ast.Expr) term {
 	info := f.pi.p.TypesInfo
+	if t, ok := f.hdrExpr(e); ok {
+		return t
+	}
 	if tv, ok := info.Types[e]; ok && tv.Value != nil {
 		switch tv.Value.Kind() {
 		case constant.Int:
@@ -176,7 +180,7 @@ func (f *ftr) expr(e ast.Expr) term {
 				// package-level variable: only byte-slice literals that nothing assigns (checked by name in ShapesGen too)
 				return term{f.pkgVar(x, o), true}
 			}
-			return term{coqName(x.Name), true}
+			return term{f.nameOf(x), true}
 		}
 		f.fail(e, "unsupported identifier %s", x.Name)
 	case *ast.BinaryExpr:
@@ -426,11 +430,36 @@ func (f *ftr) callTarget(name string, recv ast.Expr, args []ast.Expr) term {
 
 // ---- lowering to IR
 
+// declare gives the variable an identifier of its own: a second variable of the same Go name (shadowing, or the same
+// name in two branches) gets a numbered one, so that rebinding a name never confuses two variables.
 func (f *ftr) declare(n ast.Node, name string) {
-	f.declared[name]++
-	if f.declared[name] > 1 {
-		f.fail(n, "the name %s is declared twice in one function (rebinding would confuse the two variables)", name)
+	id, ok := n.(*ast.Ident)
+	if !ok || name == "_" {
+		return
 	}
+	obj := f.pi.p.TypesInfo.Defs[id]
+	if obj == nil {
+		return
+	}
+	if _, done := f.names[obj]; done {
+		return
+	}
+	f.declared[name]++
+	cn := coqName(name)
+	if f.declared[name] > 1 {
+		cn = fmt.Sprintf("%s_%d", coqName(name), f.declared[name])
+	}
+	f.names[obj] = cn
+}
+
+// nameOf is the identifier of the variable an *ast.Ident refers to
+func (f *ftr) nameOf(id *ast.Ident) string {
+	if obj := f.pi.p.TypesInfo.ObjectOf(id); obj != nil {
+		if n, ok := f.names[obj]; ok {
+			return n
+		}
+	}
+	return f.nameOf(id)
 }
 
 func rootIdent(e ast.Expr) *ast.Ident {
@@ -447,8 +476,17 @@ func rootIdent(e ast.Expr) *ast.Ident {
 
 func (f *ftr) lower(stmts []ast.Stmt) []irStmt {
 	var out []irStmt
-	for _, s := range stmts {
-		out = append(out, f.lower1(s)...)
+	for i := 0; i < len(stmts); i++ {
+		var next ast.Stmt
+		if i+1 < len(stmts) {
+			next = stmts[i+1]
+		}
+		if ir, skip, ok := f.hdrStmt(stmts[i], next); ok {
+			out = append(out, ir...)
+			i += skip
+			continue
+		}
+		out = append(out, f.lower1(stmts[i])...)
 	}
 	return out
 }
@@ -468,7 +506,7 @@ func (f *ftr) lower1(s ast.Stmt) []irStmt {
 			for i, n := range vs.Names {
 				f.declare(n, n.Name)
 				if i < len(vs.Values) {
-					out = append(out, irBind{coqName(n.Name), f.expr(vs.Values[i])})
+					out = append(out, irBind{f.nameOf(n), f.expr(vs.Values[i])})
 					continue
 				}
 				ct, ok := coqTypeOf(f.typeOf(n))
@@ -476,7 +514,7 @@ func (f *ftr) lower1(s ast.Stmt) []irStmt {
 				if !ok || zero == "" {
 					f.fail(n, "unsupported zero value of %s", f.typeOf(n))
 				}
-				out = append(out, irBind{coqName(n.Name), term{zero, true}})
+				out = append(out, irBind{f.nameOf(n), term{zero, true}})
 			}
 		}
 		return out
@@ -491,14 +529,14 @@ func (f *ftr) lower1(s ast.Stmt) []irStmt {
 				f.fail(x, "assignment to the blank identifier")
 				return nil
 			}
+			rhs := f.expr(x.Rhs[0])
 			if x.Tok == token.DEFINE {
 				f.declare(l, l.Name)
 			}
-			rhs := f.expr(x.Rhs[0])
 			if x.Tok != token.DEFINE && x.Tok != token.ASSIGN {
-				rhs = f.opAssign(x, term{coqName(l.Name), true}, rhs, f.typeOf(l))
+				rhs = f.opAssign(x, term{f.nameOf(l), true}, rhs, f.typeOf(l))
 			}
-			return []irStmt{irBind{coqName(l.Name), rhs}}
+			return []irStmt{irBind{f.nameOf(l), rhs}}
 		case *ast.IndexExpr:
 			root, ok := l.X.(*ast.Ident)
 			if !ok {
@@ -508,11 +546,11 @@ func (f *ftr) lower1(s ast.Stmt) []irStmt {
 			pi, vi := f.bind(f.expr(l.Index))
 			rhs := f.expr(x.Rhs[0])
 			if x.Tok != token.ASSIGN {
-				cur := term{"(go_idx " + coqName(root.Name) + " " + vi + ")", false}
+				cur := term{"(go_idx " + f.nameOf(root) + " " + vi + ")", false}
 				rhs = f.opAssign(x, cur, rhs, f.typeOf(l))
 			}
 			pr, vr := f.bind(rhs)
-			return []irStmt{irBind{coqName(root.Name), term{"(" + pi + pr + "go_set " + coqName(root.Name) + " " + vi + " " + vr + ")", false}}}
+			return []irStmt{irBind{f.nameOf(root), term{"(" + pi + pr + "go_set " + f.nameOf(root) + " " + vi + " " + vr + ")", false}}}
 		}
 		f.fail(x, "unsupported assignment target")
 		return nil
@@ -522,7 +560,7 @@ func (f *ftr) lower1(s ast.Stmt) []irStmt {
 			if x.Tok == token.DEC {
 				op = " - 1"
 			}
-			return []irStmt{irBind{coqName(id.Name), term{"(" + coqName(id.Name) + op + ")", true}}}
+			return []irStmt{irBind{f.nameOf(id), term{"(" + f.nameOf(id) + op + ")", true}}}
 		}
 	case *ast.ExprStmt:
 		if c, ok := x.X.(*ast.CallExpr); ok {
@@ -548,18 +586,18 @@ func (f *ftr) lower1(s ast.Stmt) []irStmt {
 					}
 					po, vo := f.bind(off)
 					ps, vs := f.bind(f.expr(c.Args[1]))
-					return []irStmt{irBind{coqName(root.Name), term{"(" + po + ps + "go_copy_at " + coqName(root.Name) + " " + vo + " " + vs + ")", false}}}
+					return []irStmt{irBind{f.nameOf(root), term{"(" + po + ps + "go_copy_at " + f.nameOf(root) + " " + vo + " " + vs + ")", false}}}
 				}
 			}
 		}
 	case *ast.IfStmt:
 		var out []irStmt
 		if x.Init != nil {
-			out = append(out, f.lower1(x.Init)...)
+			out = append(out, f.lower([]ast.Stmt{x.Init})...)
 		}
 		var els []irStmt
 		if x.Else != nil {
-			els = f.lower1(x.Else)
+			els = f.lower([]ast.Stmt{x.Else})
 		}
 		return append(out, irIf{f.expr(x.Cond), f.lower(x.Body.List), els})
 	case *ast.SwitchStmt:
@@ -629,7 +667,7 @@ func (f *ftr) lower1(s ast.Stmt) []irStmt {
 		}
 		r := irRange{over: f.expr(x.X)}
 		if id, ok := x.X.(*ast.Ident); ok {
-			r.overName = coqName(id.Name)
+			r.overName = f.nameOf(id)
 		}
 		if _, ok := f.typeOf(x.X).Underlying().(*types.Slice); !ok {
 			f.fail(x, "range over something other than a slice")
@@ -637,12 +675,12 @@ func (f *ftr) lower1(s ast.Stmt) []irStmt {
 		}
 		if id, ok := x.Key.(*ast.Ident); ok && id.Name != "_" {
 			f.declare(id, id.Name)
-			r.key = coqName(id.Name)
+			r.key = f.nameOf(id)
 		}
 		if x.Value != nil {
 			if id, ok := x.Value.(*ast.Ident); ok && id.Name != "_" {
 				f.declare(id, id.Name)
-				r.val = coqName(id.Name)
+				r.val = f.nameOf(id)
 			}
 		}
 		r.body = f.lower(x.Body.List)
@@ -750,6 +788,7 @@ func tuple(vars []string) string {
 	}
 	return "(" + strings.Join(vars, ", ") + ")"
 }
+// tuplePat: the binder of the `do` notation (declared with `x pattern`, so no quote)
 func tuplePat(vars []string) string {
 	switch len(vars) {
 	case 0:
@@ -757,7 +796,7 @@ func tuplePat(vars []string) string {
 	case 1:
 		return vars[0]
 	}
-	return "'(" + strings.Join(vars, ", ") + ")"
+	return "(" + strings.Join(vars, ", ") + ")"
 }
 
 type kont struct {
@@ -772,7 +811,7 @@ func (f *ftr) emit(b []irStmt, k kont, scope map[string]bool) string {
 		switch k.kind {
 		case 1:
 			return "Ok (CNext " + tuple(k.state) + ")"
-		case 2:
+		case 2, 3:
 			return "Ok " + tuple(k.state)
 		}
 		f.err = firstErr(f.err, fmt.Errorf("%s: control reaches the end of the function without a return", f.fd.Name.Name))
@@ -796,6 +835,10 @@ func (f *ftr) emit(b []irStmt, k kont, scope map[string]bool) string {
 		case 1:
 			p, v := f.bind(x.val)
 			return "(" + p + "Ok (CRet " + v + "))"
+		}
+		if x.val.s == "Err" && !x.val.pure {
+			// returning an error leaves the function whatever the nesting: Err propagates through every bind
+			return "Err"
 		}
 		f.err = firstErr(f.err, fmt.Errorf("%s: return inside a branch that also falls through", f.fd.Name.Name))
 		return "Panic"
@@ -950,7 +993,7 @@ func genFuncs(ps []pkgInfo) (string, error) {
 			defs = append(defs, fmt.Sprintf("(* %s.%s — NOT FOUND in the source *)\nDefinition %s_%s : unit := tt.\n", t.pkg, t.name, coqIdent(t.pkg), t.name))
 			continue
 		}
-		f := &ftr{pi: *pi, all: ps, fd: fd, declared: map[string]int{}, byteVars: byteVars}
+		f := &ftr{pi: *pi, all: ps, fd: fd, declared: map[string]int{}, byteVars: byteVars, names: map[types.Object]string{}}
 		scope := map[string]bool{}
 		var params []string
 		addParam := func(fl *ast.Field) {
@@ -960,8 +1003,8 @@ func genFuncs(ps []pkgInfo) (string, error) {
 					f.fail(n, "unsupported parameter type %s", f.typeOf(n))
 				}
 				f.declare(n, n.Name)
-				scope[coqName(n.Name)] = true
-				params = append(params, "("+coqName(n.Name)+" : "+ct+")")
+				scope[f.nameOf(n)] = true
+				params = append(params, "("+f.nameOf(n)+" : "+ct+")")
 			}
 		}
 		if fd.Recv != nil {
